@@ -12,249 +12,188 @@ Definition show_fres (r : fres) : string :=
   end.
 Definition check (rs : list rune) : string := digest (show_fres (format_res rs)).
 Definition full (rs : list rune) : string := show_fres (format_res rs).
-Eval vm_compute in ("<<<M1561>>>" ++ check (runes_of_ascii "
-packet Z9_	//x
-    {@calculatedFrom(
-	""1"" ) match 
-body
-	as
-u8x
-
-    {[7
-	] :
-u
-,	[ 7,
-    00 
-, ""a\""b""
-,""""
-,
-
-    ""\n"" 
-, 00
-
-]
-
-    :
-charz , 1
-
-    :	// c
-    	Packet ,""" ++ [28040; 24687]%N ++ runes_of_ascii """ :
-    f32a
-    ,  00 :	// trailing space 
-    len
-	}	,
-
-    @lengthOf(  calculatedFrom
-
-) MetaDataX
-
-    ,
-
-Packet @lengthOf(
-
-    int )
-    ,  repeat 	 // `tick` ""quote"" 'q'
-char[	7 
-]
-calculatedFrom,
-@calculatedFrom(
-""a\\""
-	)
-	zchar[ 	 //
-	255 // " ++ [128512]%N ++ runes_of_ascii " emoji
-	]f32a@calculatedFrom(
-    """ ++ [233]%N ++ runes_of_ascii "t" ++ [233]%N ++ runes_of_ascii """  ) 
-,
-@calculatedFrom(
-""a\""b"" // packet A { u8 x, }
-)char[
-	7 
-
-    //	t
-    ]
-
-    i8i8
-	@calculatedFrom(
-
-    ""a\\""
-    )
-
-    `crlf
-line`
-,
-
-zchar[ 0123456789
-    ]
-
-    x  `line1
-line2`
-
-    ,@leftPad
-
-( 
-)
-repeat
-u64
-stringy
-,
-	@lengthOf(	x )
-repeat  body {//	t
-  Z9_ {
-repeat	asx  , repeat 
-crc
-    i64_// " ++ [27880; 37322]%N ++ runes_of_ascii "
-    ,
-
-repeat rootA
-{  repeat rootA MetaDataX
-    `line1
-line2`
-        // `tick` ""quote"" 'q'
-	,
-match
-i64_ 
-as 
-calculatedFrom	{
-
-7 : x
-[	7]
-:stringy	,
-
-    ""1"" 
-: i8i8,
-
-[ ""1"" ,
-42
-    ,
-        // trailing space 
-/// triple
-		""" ++ [233]%N ++ runes_of_ascii "t" ++ [233]%N ++ runes_of_ascii """	, 
-10 ,
-
-255
-	,	0 
-,
-
-10 
-]
-    : u ,
-
-""x y"" 
-:
-
-    i8i8 } 
-
-// `tick` ""quote"" 'q'
-
-//x
-,
-uint64
-	_x
-`
-` , 
-char[
-
-0
-
-]
-	i64_
-
-@calculatedFrom( ""CRC32"" )
-    ,
-	},
-
-x_y_z{	char[]T 
-	// a // b
-  	// @lengthOf(
-    ,
-}
-
-, }
-	,  repeat
-	u64
-
-Foo	`a\`, 
-uint8
-
-    uint8x
-
-,  match 
-
-    //	t
-
-  // trailing space 
-	roots
-	as chars
+Eval vm_compute in ("<<<M1361>>>" ++ check (runes_of_ascii "options { // c1a
+  // c1b
+StringPrefixLenType =
+    // c3
+u8 // c4
+; ArrayPrefixLenType // c6a
+  // c6b
+= u32 // c8a
+  // c8b
+; // c9
+FixedStringPadFromLeft // c10
+=
+    // c11
+true // c12
+; FixedStringPadChar // c14
+= // c15a
+  // c15b
+' ' // c16a
+  // c16b
+; // c17a
+  // c17b
+} // c18a
+  // c18b
+packet // c19a
+  // c19b
+Leg
+    // c20
 {
-
-1	: _x
-""a\""b""
-    :
-
-uint8x
-    , 
-42:metadata// " ++ [128512]%N ++ runes_of_ascii " emoji
-	,// `tick` ""quote"" 'q'
-
-[// @lengthOf(
-  	""\n""	,
-    255
-    ] :
-zchar [
-""" ++ [233]%N ++ runes_of_ascii "t" ++ [233]%N ++ runes_of_ascii """
+    // c21
+} // c22a
+  // c22b
+packet
+    // c23
+Heartbeat
+    // c24
+{ // c25a
+  // c25b
+zchar[ // c26
+6 // c27a
+  // c27b
+] msgKind ,
+    // c30
+@rightPad // c31
+(
+    // c32
+'0' // c33a
+  // c33b
+)
+    // c34
+char[ // c35a
+  // c35b
+3
+    // c36
+] Qty
+    // c38
+, // c39a
+  // c39b
+zchar[ // c40
+9 // c41a
+  // c41b
+] // c42a
+  // c42b
+Side2 // c43a
+  // c43b
+, // c44
+i8 // c45a
+  // c45b
+Acct
+    // c46
+, } // c48
+packet Logout // c50a
+  // c50b
+{ // c51
+int8 // c52
+x
+    // c53
+, // c54
+} packet
+    // c56
+Order { // c58a
+  // c58b
+char[] // c59a
+  // c59b
+Acct
+    // c60
+, // c61
+zchar[ // c62
+8 ] // c64
+count // c65a
+  // c65b
 ,
-3  ,
-
-4294967296
-,  // trailing space 
-
-  0123456789 ,
-
-""x y""
+    // c66
+u32 // c67
+OrderId // c68a
+  // c68b
+, // c69
+uint8 // c70a
+  // c70b
+lastPx // c71
+, u16 clOrdID // c74
+, // c75a
+  // c75b
+zchar[ // c76
+7 ] Note
+    // c79
+, // c80a
+  // c80b
+} root // c82
+packet
+    // c83
+Reject
+    // c84
+{ // c85a
+  // c85b
+@leftPad (
+    // c87
+' '
+    // c88
+)
+    // c89
+char[ // c90a
+  // c90b
+8 // c91
+] // c92
+Side2 ,
+    // c94
+i8
+    // c95
+clOrdID // c96a
+  // c96b
+, // c97
+repeat // c98a
+  // c98b
+f32 // c99a
+  // c99b
+x // c100a
+  // c100b
+, // c101
+u32 lastPx // c103a
+  // c103b
+,
+    // c104
+match // c105a
+  // c105b
+lastPx // c106
+as Body // c108a
+  // c108b
+{
+    // c109
+[
+    // c110
+30 , // c112a
+  // c112b
+147 // c113a
+  // c113b
 ]
-
-: metadata
-    [ // c
-
-	""it's""
-, ""// no comment"" ]: 
-Z9_,
-}
-
+    // c114
+: // c115a
+  // c115b
+Heartbeat
+    // c116
+, 134 : Leg // c120
 ,
-} , }	// a // b
-
-MetaData
-rootA
-{ char[	4294967296  ]	msg_type
-
-,// @lengthOf(
-
-	char[]u128
-	,uint64 a1
-    ,int8 
-crc ,	Pad
-
-msg_type `doc` 
-,
-	} 
-    //	t
-
-/// triple
-    packet x_y_z	{  @lengthOf(crc  ) match packetx
-as
-    f32a
-
-{ 0123456789
-    : A
-	,  00 :
-
-    u  // @lengthOf(
-	} 
-, }
-
+    // c121
+183
+    // c122
+:
+    // c123
+Logout , // c125
+40 // c126a
+  // c126b
+: Order // c128
+, } // c130
+, // c131
+u16 Ref // c133a
+  // c133b
+@calculatedFrom( // c134
+""CRC32""
+    // c135
+) , } // c138
 ")).
-Eval vm_compute in ("<<<M1862>>>" ++ check (runes_of_ascii "packet  asx
+Eval vm_compute in ("<<<M1861>>>" ++ check (runes_of_ascii "packet  asx
 {leftPad 
 @calculatedFrom(
     """ ++ [233]%N ++ runes_of_ascii "t" ++ [233]%N ++ runes_of_ascii """ )
@@ -508,800 +447,829 @@ root packet Ack {
 C32""),
 }
 ")).
-Eval vm_compute in ("<<<M1371>>>" ++ check (runes_of_ascii "options {
-    FixedStringPadFromLeft = true;
-    FixedStringPadChar = '0';
+Eval vm_compute in ("<<<M104>>>" ++ check (runes_of_ascii "options{  matchKey = ""x y""
+    ;	MetaDataX
+= '0'
+;
+} packet // c
+msg_type { @rightPad ( ' '  )repeat u128 body	, match body	as /// triple
+pack{ [ ""\" ++ [233]%N ++ runes_of_ascii """ , ""1"" ]: BodyLength
+, [ 255
+, ""a	b"" , ""a\\"" , ""{,}""
+,  007 , 007 ,
+    0123456789
+] : options1	,	} ,@leftPad
+()@lengthOf(charz	)
+@tag(	42
+) o{	i32 msg_type @lengthOf( A )// " ++ [27880; 37322]%N ++ runes_of_ascii "
+`doc` ,zchar[ 1] charz  , // c
+i8 packetx`{ , }`,
+msg_type `crlf
+line`
+    , }	,
+@calculatedFrom( ""\" ++ [233]%N ++ runes_of_ascii """ ) Z9_ @calculatedFrom(
+""" ++ [128512]%N ++ runes_of_ascii """ )`tab	here` ,
+repeat char[] Foo ,
+repeat zchar[ 0123456789]	u128
+, }	packet f32a{
+    f32a @lengthOf( matchKey )//x
+, @rightPad (
+    ' ' // " ++ [27880; 37322]%N ++ runes_of_ascii "
+)@lengthOf( chars ) _x Foo  `` ,  match
+    body // c
+as
+    body
+    {	[4294967296
+    , ""packet"", 3 , """ ++ [128512]%N ++ runes_of_ascii """
+,
+0123456789  ]
+: T [ ""a\\"" ]// `tick` ""quote"" 'q'
+: T
+, ""\n""
+:
+u8x , }
+//	t
+//x
+,} //x
+root packet lengthOf
+{ }
+")).
+Eval vm_compute in ("<<<M1117>>>" ++ check (runes_of_ascii "// top
+MetaData
+    // c0
+Packet
+    // c1
+{
+    // c2
 }
-packet Leg {
-    repeat InSym93 {
-        zchar[3] Acct,
-        string Side2,
-        i32 Flags,
-        f32 Note,
-        i32 msgKind,
+    // c3
+packet
+    // c4
+charz
+    // c5
+{
+    // c6
+Foo
+    // c7
+asx
+    // c8
+`it's`
+    // c9
+,
+    // c10
+@lengthOf(
+    // c11
+T
+    // c12
+)
+    // c13
+@calculatedFrom(
+    // c14
+""""
+    // c15
+)
+    // c16
+@calculatedFrom(
+    // c17
+""x y""
+    // c18
+)
+    // c19
+zchar[
+    // c20
+007
+    // c21
+]
+    // c22
+repeatCount
+    // c23
+@lengthOf(
+    // c24
+int
+    // c25
+)
+    // c26
+`a\`
+    // c27
+,
+    // c28
+i8
+    // c29
+string_
+    // c30
+,
+    // c31
+repeat
+    // c32
+options1
+    // c33
+Pad
+    // c34
+,
+    // c35
+}
+    // c36
+root
+    // c37
+packet
+    // c38
+Packet
+    // c39
+{
+    // c40
+int8
+    // c41
+float
+    // c42
+`doc`
+    // c43
+,
+    // c44
+}
+    // c45
+")).
+Eval vm_compute in ("<<<M243>>>" ++ check (runes_of_ascii "// a // b
+packet stringy { @tag( 3 ) // trailing space 
+i64
+    len
+,@calculatedFrom( ""1""  ) char[
+0 ]
+x @lengthOf(Foo )
+,@calculatedFrom( """" )
+body
+// c
+// " ++ [128512]%N ++ runes_of_ascii " emoji
+@lengthOf(
+calculatedFrom )`line1
+line2`
+    , @calculatedFrom( ""it's"" // " ++ [128512]%N ++ runes_of_ascii " emoji
+)// packet A { u8 x, }
+match falsey
+    // packet A { u8 x, }
+    as u8x {[
+""" ++ [128512]%N ++ runes_of_ascii """
+    , // a // b
+42 , 1 ,10 ]
+: Header , } ,
+// trailing space 
+// `tick` ""quote"" 'q'
+} MetaData// " ++ [128512]%N ++ runes_of_ascii " emoji
+stringy{ f32a
+    u128 `{ , }` , char[ // a // b
+10 ]u128	, chars _x , zchar[ 65535 // trailing space 
+]/// triple
+falsey
+    `{ , }`
+    , _x i64_
+, int32
+Packet
+`crlf
+line` , } MetaData lengthOf
+{
+    }
+// trailing space 
+")).
+Eval vm_compute in ("<<<M1917>>>" ++ check (runes_of_ascii "packet Header {
+    char[10] A `it's`,
+    @calculatedFrom(""" ++ [28040; 24687]%N ++ runes_of_ascii """)
+    calculatedFrom @lengthOf(zchar) `tab	here`,
+    u32 BodyLength,
+    @lengthOf(stringy)
+    //
+    @rightPad(' ')
+    @tag(0123456789)
+    body {
+        match i8i8 as Foo {
+            [7, ""CRC32""] : options1,
+            [
+                ""a\""b"", """ ++ [128512]%N ++ runes_of_ascii """, ""it's"", ""a	b"", ""// no comment"",
+                ""it's"", 7, ""abc""
+            ] : As,
+            1 : _x,
+            // " ++ [128512]%N ++ runes_of_ascii " emoji
+            //
+        },
+        repeat uint8x {
+            crc @calculatedFrom(""a\\""),
+        },
+        repeat i8 tag,// " ++ [128512]%N ++ runes_of_ascii " emoji
     },
-    f64 Note,
-    uint16 Px,
+}")).
+Eval vm_compute in ("<<<M1571>>>" ++ check (runes_of_ascii "
+root 
+packet
+Logon
+    {
+
+@calculatedFrom(
+
+"""" ) @lengthOf(	int
+
+    ) @tag(  3 )
+match
+_x 
+as	// a // b
+    i64_
+
+    {
+10 :
+    asx
+
+    // `tick` ""quote"" 'q'
+	  /// triple
+  """ ++ [128512]%N ++ runes_of_ascii """
+:
+
+crc	,
+	[0
+	,
+007
+
+]  :float
+	,  // trailing space 
+		} 
+,
+
+repeat 	 //	t
+  	uint16
+
+    leftPad
+
+,
+    } 
+
+    // " ++ [27880; 37322]%N ++ runes_of_ascii "
+  packet
+
+charz{  }  MetaData
+	int
+
+{  
+  //
+// trailing space 
+      zchar[
+    4294967296
+
+]matchKey
+	, asx rootA
+    `doc`
+
+,Foo
+	string_
+	`// not a comment` , 
+char[] u8x
+,  // `tick` ""quote"" 'q'
+    roots
+    float, }")).
+Eval vm_compute in ("<<<M1883>>>" ++ check (runes_of_ascii "
+
+  // top
+
+  MetaData
+	// c0
+
+uint8x // c1
+	  {char[] 
+
+// c3
+
+  f32a// c4a
+	// c4b
+  `// not a comment`  
+      // c5
+,// c6a
+  // c6b
+  float32 // c7
+
+  roots 
+	// c8
+	, 	 // c9
+  	char[ // c10a
+
+// c10b
+  	7// c11
+  ]// c12
+
+u8x  // c13
+	, 	 // c14a
+  // c14b
+  zchar[
+	    // c15
+    10 
+	// c16
+  ]  // c17
+
+f32a 	 // c18
+
+	,	// c19a
+		// c19b
+      u64
+	// c20
+	pack 	 // c21a
+  // c21b
+	,
+
+u16  
+  // c23
+
+	pack  // c24a
+	// c24b
+  ,
+    // c25
+
+	}
+    // c26")).
+Eval vm_compute in ("<<<M1375>>>" ++ check (runes_of_ascii "options {
+    LittleEndian = true;
+    StringPrefixLenType = u64;
+    ArrayPrefixLenType = u16;
+    FixedStringPadFromLeft = false;
+    FixedStringPadChar = ' ';
 }
-packet Quote {
-    zchar[2] OrderId,
+packet Logon {
+    zchar[5] Side2,
 }
-packet Ack {
-    repeat string lastPx,
-    zchar[4] price,
-    uint32 OrderId,
-    Quote,
-    int8 Acct,
-}
-packet Fill {
-    repeat Leg,
-    @rightPad('0') char[11] Note,
-    f64 Px,
-    @rightPad('\x00') char[5] Flags,
-    zchar[9] x,
-    string msgKind,
-}
-root packet Order {
-    Leg,
-    repeat Ack,
-    @rightPad('\x00') char[3] Side2,
-    repeat char[1] seqNo,
-    u16 clOrdID,
-    match clOrdID as Body {
-        198 : Leg,
-        23 : Quote,
-        13 : Ack,
-        159 : Fill,
+root packet Logout {
+    repeat i64 Tail,
+    Logon,
+    repeat i16 OrderId,
+    char[] venue,
+    uint64 x,
+    repeat i16 count,
+    u8 Flags,
+    match Flags as Body {
+        25 : Logon,
     },
-    u32 venue @calculatedFrom(""CR\
+    u16 Qty @calculatedFrom(""CR\
 C32""),
 }
 ")).
-Eval vm_compute in ("<<<M1124>>>" ++ check (runes_of_ascii "// top
-options
-    // c0
-{ // c1
-uint8x // c2a
-  // c2b
-= 007 // c4a
-  // c4b
-; lengthOf
-    // c6
-= i8 ; // c9a
-  // c9b
-} packet i64_
-    // c12
-{ // c13
-@calculatedFrom( // c14
-""1""
-    // c15
-) // c16
-@tag( // c17
-3 )
-    // c19
-@lengthOf(
-    // c20
-rootA ) // c22
-repeat // c23
-int8 // c24a
-  // c24b
-Packet // c25a
+Eval vm_compute in ("<<<M1271>>>" ++ check (runes_of_ascii "options { // c1a
+  // c1b
+LittleEndian
+    // c2
+= // c3
+true // c4
+; } // c6a
+  // c6b
+packet B { u8 // c10a
+  // c10b
+a
+    // c11
+, // c12a
+  // c12b
+string // c13
+s // c14
+, } // c16
+root // c17a
+  // c17b
+packet
+    // c18
+P // c19
+{ u16 // c21
+L @lengthOf( B ) // c25a
   // c25b
-`u8 x,` // c26
-, // c27
-} // c28a
-  // c28b
-root
+, // c26a
+  // c26b
+B // c27a
+  // c27b
+,
+    // c28
+u8
     // c29
-packet // c30a
-  // c30b
-stringy
-    // c31
-{ // c32a
+t // c30
+, // c31
+} // c32a
   // c32b
-@rightPad ( ' ' // c35
-) // c36
-repeat // c37a
-  // c37b
-char[ // c38
-10 // c39
-] repeatCount // c41a
-  // c41b
-, // c42
-@tag( // c43a
-  // c43b
-255
-    // c44
-) // c45
-float64
-    // c46
-msg_type
-    // c47
-@calculatedFrom( ""packet""
-    // c49
-) // c50a
-  // c50b
-, // c51a
-  // c51b
-} // c52
 ")).
-Eval vm_compute in ("<<<M1904>>>" ++ check (runes_of_ascii "packet u128 {
-    repeat char[65535] float,
-}
-
-options {
-    f32a = char[];
-}
-
-packet _x {
-    @rightPad('0')
-    // packet A { u8 x, }
-    @lengthOf(i8i8)
-    @lengthOf(lengthOf)
-    repeat Z9_ `crlf
-    line`,
-    string_ {
-        // `tick` ""quote"" 'q'
-        // c
-        zchar[7] x_y_z,
-        Header x `line1
-        line2`,
-    },//	t
-    @leftPad()
-    match float as x_y_z {
-        """ ++ [28040; 24687]%N ++ runes_of_ascii """ : metadata,
-        007 : A,
-        00 : falsey,
-        0123456789 : Foo,
-        0123456789 : zchar,
-    },
-    @calculatedFrom(""1"")
-    @tag(0)
-    char[00] options1,
-}
-
-packet Pad {
-    u16 body @lengthOf(stringy),
-}
-
-options {
-    BodyLength = '0'
-    msg_type = ""a\""b"";
-}")).
-Eval vm_compute in ("<<<M1404>>>" ++ check (runes_of_ascii "// top
-options {
-    LittleEndian = false;// c5a
-    // c5b
-    StringPrefixLenType = u8;
-    ArrayPrefixLenType = u64;
-    // c13
-    FixedStringPadFromLeft = false;// c17a
-    // c17b
-    FixedStringPadChar = ' ';
-    // c21
-}// c22
-
-packet Reject {
-    repeat char[4] seqNo,// c31
-    string Px,// c34
-}
-
-root packet Trade {
-    // c39a
-    // c39b
-    @rightPad('0')
-    // c43a
-    // c43b
-    char[2] msgKind,// c48
-    repeat f64 price,// c52
-    InAcct79 {
-        // c54
-        repeat Reject,// c57a
-        // c57b
-        zchar[7] OrderId,
-        // c62
-    },
-    Reject,
-}// c67a
-// c67b")).
-Eval vm_compute in ("<<<M1711>>>" ++ check (runes_of_ascii "// top
-options {
-    // c1
-    LittleEndian = true;
+Eval vm_compute in ("<<<M1877>>>" ++ check (runes_of_ascii "// top
+packet A {
+    // c2
+    u8 a,
 }// c6a
 
 // c6b
-packet Logon {
-    u8 x,
+packet B {
+    u16 b,
     // c12
 }
 
 // c13
-packet Logout {
-    // c16
-    u16 reason,
-}// c20
-
-root packet Frame {
-    // c24a
-    // c24b
-    u64 Kind,// c27
-    u64 Kind2,
-    match Kind as Body {
-        // c35
-        1 : Logon,
-        // c39
-        [
-            2, 3,
-            4
-        ] : Logout,
-        // c49
-        100 : Logon,
-        // c53
+root packet P {
+    // c17a
+    // c17b
+    u8 K1,// c20
+    u8 K2,// c23a
+    // c23b
+    match K1 as M1 {
+        // c28a
+        // c28b
+        1 : A,
+        // c32a
+        // c32b
     },
-    match Kind2 as Trailer {
-        // c60a
-        // c60b
-        0 : Logout,
-        // c64
+    match K2 as M2 {
+        1 : B,
     },
-}")).
-Eval vm_compute in ("<<<M210>>>" ++ check (runes_of_ascii "MetaData tag {
-//
-//
-char[// a // b
-3 ] // a // b
-msg_type
-    // c
-    , char[7 ] options1
-,
-    // trailing space 
-    float crc
-,calculatedFrom pack ,int64 u  `a\`,}
-packet leftPad{char[
-    1
-]
-    /// triple
-    zchar
-,
-    //
-    } packet crc { // c
-@lengthOf( packetx	) @lengthOf( asx)
-@lengthOf( packetx ) calculatedFrom {	f32 packetx	``
-// packet A { u8 x, }
-//x
-, },
-} options { Z9_
-= ""\" ++ [233]%N ++ runes_of_ascii """
-    // a // b
-    float = ' ' ; packetx = ""x y""
-    calculatedFrom  = int16
-    ;
-}")).
-Eval vm_compute in ("<<<M161>>>" ++ check (runes_of_ascii "packet rootA{ options1 _x , u64
-    Header , } packet lengthOf {
-    @rightPad ( ' '	)
-@lengthOf( u128 // trailing space 
-)	@calculatedFrom(	""a\""b"" )  A {string i64_	`it's`,
-//	t
-// trailing space 
-uint8
-body
-, match pack as u {
-// @lengthOf(
-// trailing space 
-00 : charz , 00: int ,3
-: falsey 255 :body
-    ,
-[0123456789 ] :x_y_z ,
-// a // b
-//
-}
-,
-} ,
-} MetaData chars{ u128
-    zchar , char[ 42  ]
-// a // b
-// a // b
-metadata
-    , }
-")).
-Eval vm_compute in ("<<<M1443>>>" ++ check (runes_of_ascii "  packet metadata{//	t
-		float64
-body 
-@lengthOf(
-
-    calculatedFrom)
-	,  // a // b
-@tag(
-42
-) rootA , x_y_z
-	u8x 
-`// not a comment` ,
-    @lengthOf( 
-Pad
-    ) match	// " ++ [27880; 37322]%N ++ runes_of_ascii "
-  packetx
-as	leftPad{ 
-
-    //
-  65535
-:
-tag
-	,
-""" ++ [128512]%N ++ runes_of_ascii """
-:	_x
-	},
-x_y_z
-
-metadata  ,
-
-@tag( 7
-    ) int64
-zchar
-
-    @lengthOf(
-    repeatCount
-	) `" ++ [233]%N ++ runes_of_ascii "`
-	,
-	@tag(0123456789
-
-) repeat
-	float 
-chars
-
-, 
-f32
-	MetaDataX,} ")).
-Eval vm_compute in ("<<<M118>>>" ++ check (runes_of_ascii "packet As{@leftPad ( )
-    char[ 0	]
-Logon, char[	0
-]
-Z9_@calculatedFrom(	""abc""
-    // c
-    ) ,  @tag( 4294967296 )
-    i64 matchKey @calculatedFrom(
-    ""// no comment""//
-)`two words` ,i16 A
-, }// " ++ [27880; 37322]%N ++ runes_of_ascii "
-packet T { zchar[
-3 ] tag// packet A { u8 x, }
-@lengthOf(
-    chars) , } packet// " ++ [128512]%N ++ runes_of_ascii " emoji
-BodyLength  {calculatedFrom @lengthOf( body )
-`
-`	, } // a // b")).
-Eval vm_compute in ("<<<M1387>>>" ++ check (runes_of_ascii "options
-
-{ 
-LittleEndian
-	=
-true 
-;	}
-
-packet
-
-    Logon { u8
-	x
-,
-    }
-	packet
-Logout
-
-{ u16
-
-    reason
-	, }  root
-packet
-
-Frame
-{u64
-Kind , u64
-	Kind2
-
-,match
-Kind  as 
-Body 
-{
-1:	Logon,
-
-    [  2 ,3
-
-,
-    4 ] 
-:	Logout , 100
-: Logon
-    , 
-},
-match
-Kind2 as
-
-    Trailer{
-0
-:
-	Logout
-, } , } ")).
-Eval vm_compute in ("<<<M1722>>>" ++ check (runes_of_ascii "MetaData T {
-    uint8 float,
-    repeatCount x,
-    char[10] asx,
-    char[00] metadata `" ++ [233]%N ++ runes_of_ascii "`,
-    u8x asx,
-}
-
-MetaData trueish {
-    charz string_ `crlf
-        line`,
-    zchar[42] _x,
-}
-
-packet o {
-    char[] u8x @calculatedFrom(""abc""),
-}
-
-options {
-    x = 255;
-    u = '0'
-}")).
-Eval vm_compute in ("<<<M361>>>" ++ check (runes_of_ascii "MetaData BodyLength { uint16 leftPad `" ++ [233]%N ++ runes_of_ascii "` // a // b
-, uint8x asx,
-    len lengthOf `// not a comment` ,
-string uint8x `doc`
-, }options {i8i8 = 0
-lengthOf =
-    0123456789 ; } packet uint8x { @lengthOf(
-pack ) float64
-u8x@lengthOf(asx //x
-)
-, }
-")).
-Eval vm_compute in ("<<<M1328>>>" ++ check (runes_of_ascii "packet
-
-    Logon
-    {
-
-string
-
-    user
-,} root	packet	Frame{ u8 K 
-,
-    match  K 
-as Body
-	{ 1
-:
-    Logon ,2
-: Logout  ,
-
-}  ,
-	Tail, }
-
-    packet
-Logout
-	{ u16	reason ,
-
-}
-	packet  Tail
-{u32	crc
-    ,  }
-")).
-Eval vm_compute in ("<<<M1604>>>" ++ check (runes_of_ascii "root packet Frame {
-    u8 K,
-    Logon first,
-    match K as Body {
-        1 : Logon,
-        2 : Logout,
-    },
-}
-
-packet Logon {
-    string user,
-}
-
-packet Logout {
-    u16 reason,
-}")).
-Eval vm_compute in ("<<<M1608>>>" ++ check (runes_of_ascii "packet A {
-    match k as n {
-        [
-            1, ""bb"", 007, ""d"", 5,
-            ""f"", 7, ""h"", 9, ""j"",
-            11, ""l""
-        ] : B,
-        2 : C,
-    },
-}")).
-Eval vm_compute in ("<<<M418>>>" ++ check (runes_of_ascii "packet uint8x
-{ match pack
-    @rightPad msg_type	{
-    0123456789 :	float
-}
-,
-} packet //	t
-a1
-    { } options {packetx
-    = '\x00'	; u128= ""a	b""  ; }
-")).
-Eval vm_compute in ("<<<M513>>>" ++ check (runes_of_ascii "packet uint8x
-{ match pack
-    as msg_type	{
-    0123456789 :	float
-}
-,
-} packet //	t
-a1
-    { } options {packetx
-    = '\x00'	; float32= ""a	b""  ; }
-")).
-Eval vm_compute in ("<<<M463>>>" ++ check (runes_of_ascii "packet uint8x
-{ match pack
-    as msg_type	{
-    0123456789 :	float
-}
-,
-} float32 //	t
-a1
-    { } options {packetx
-    = '\x00'	; u128= ""a	b""  ; }
-")).
-Eval vm_compute in ("<<<M472>>>" ++ check (runes_of_ascii "packet uint8x
-{ match pack
-    as msg_type	{
-    0123456789 :	float
-}
-,
-} packet //	t
-a1
-    } { options {packetx
-    = '\x00'	; u128= ""a	b""  ; }
-")).
-Eval vm_compute in ("<<<M515>>>" ++ check (runes_of_ascii "packet uint8x
-{ match pack
-    as msg_type	{
-    0123456789 :	float
-}
-,
-} packet //	t
-a1
-    { } options {packetx
-    = '\x00'	; u128 ""a	b""  ; }
-")).
-Eval vm_compute in ("<<<M440>>>" ++ check (runes_of_ascii "packet uint8x
-{ match pack
-    as msg_type	{
-    0123456789 :	
-}
-,
-} packet //	t
-a1
-    { } options {packetx
-    = '\x00'	; u128= ""a	b""  ; }
-")).
-Eval vm_compute in ("<<<M529>>>" ++ check (runes_of_ascii "packet uint8x
-{ match pack
-    as msg_type	{
-    0123456789 :	float
-}
-,
-} packet //	t
-a1
-    { } options {packetx
-    = '\x00'	; u128= ""a	b""")).
-Eval vm_compute in ("<<<M430>>>" ++ check (runes_of_ascii "packet uint8x
-{ match pack
-    as msg_type	{
-     :	float
-}
-,
-} packet //	t
-a1
-    { } options {packetx
-    = '\x00'	; u128= ""a	b""  ; }
-")).
-Eval vm_compute in ("<<<M1828>>>" ++ check (runes_of_ascii "packet
-
-    A  { match
-    k
-as
-    n 
-{
-
-    [
-
-    ""a"", ""bb""  ,
-007
-,
-
-    ""d""
-,""e"", 66 , ""g""
-
-,
-	""h""]
-	: 
-B
-2 : C} ,
-	} ")).
-Eval vm_compute in ("<<<M1658>>>" ++ check (runes_of_ascii "packet A {
-    match k as n {
-        [
-            1, ""bb"", 007, ""d"", 5,
-            ""f""
-        ] : B,
-        2 : C,
-    },
-}")).
-Eval vm_compute in ("<<<M680>>>" ++ check (runes_of_ascii "// @lengthOf(
-packet i8i8 { u128 o , }
-options { MetaDataX = true;
-    BodyLength =""packet"" x_y_z= 007
-crc //x
-= ""abc""")).
-Eval vm_compute in ("<<<M1168>>>" ++ check (runes_of_ascii "MetaData leftPad { chars MetaDataX , } packet repeatCount { char[ 255 ]
-// c
-uint8x `" ++ [233]%N ++ runes_of_ascii "` , } MetaData pack { As Foo , }")).
-Eval vm_compute in ("<<<M1485>>>" ++ check (runes_of_ascii "packet Foo {
-    tag roots,
-    // `tick` ""quote"" 'q'
-    i64_,
-    @calculatedFrom(""packet"")
-    uint32 MetaDataX,
-}")).
-Eval vm_compute in ("<<<M973>>>" ++ check (runes_of_ascii "packet A {
-    match k as n {
-        ""\
-"" : B,
-        [""\
-"", 1] : C,
-        [1,2,3,4,5,""\
-""] : D,
-    },
-}")).
-Eval vm_compute in ("<<<M1498>>>" ++ check (runes_of_ascii "options {
+    // c45
+}// c46")).
+Eval vm_compute in ("<<<M1402>>>" ++ check (runes_of_ascii "options {
     LittleEndian = true;
 }
 
-root packet P {
-    u16 a,
-    u32 Sum @calculatedFrom(""CRC32""),
+packet Logon {
+    u8 x,
+}
+
+packet Logout {
+    u16 reason,
+}
+
+root packet Frame {
+    u64 Kind,
+    u64 Kind2,
+    match Kind as Body {
+        1 : Logon,
+        [2, 3, 4] : Logout,
+        100 : Logon,
+    },
+    match Kind2 as Trailer {
+        0 : Logout,
+    },
 }")).
-Eval vm_compute in ("<<<M373>>>" ++ check (runes_of_ascii "  MetaData leftPad { /// triple
-char[] body,  As options1
-//
-/// triple
+Eval vm_compute in ("<<<M1384>>>" ++ check (runes_of_ascii "
+packet
+
+    Sub { u8	a ,	@calculatedFrom(
+""CRC16"" )
+
+    i32
+	SubSum
+
+    ,} root 
+packet Frame
+	{
+    u16	MsgType 
 ,
-o
-    //x
-    i64_
-, }
+
+    u16
+BodyLen
+@lengthOf(
+    Body
+
+) 
+,
+Sub  Body 
+,  string
+
+    note  , @calculatedFrom(
+
+""CRC16""
+
+) 
+i32	Checksum
+
+    ,
+u8 tail,
+	}
 ")).
-Eval vm_compute in ("<<<M1254>>>" ++ check (runes_of_ascii "
-packet
+Eval vm_compute in ("<<<M267>>>" ++ check (runes_of_ascii "packet trueish{
+@leftPad (// @lengthOf(
+'0'  ) @tag(  3/// triple
+) @tag(
+7 ) repeat
+//x
+// @lengthOf(
+matchKey
+{ u32 u,
+}  , @lengthOf( chars
+) @calculatedFrom(
+""a	b"") @tag( 0123456789
+    )zchar[255 ]Pad ,  } root
+    packet u { }
+")).
+Eval vm_compute in ("<<<M273>>>" ++ check (runes_of_ascii "root packet string_ { @leftPad (
+    ' ' )  chars { repeat
+zchar[ 0
+]  tag ,string falsey,// " ++ [128512]%N ++ runes_of_ascii " emoji
+repeat  char[ 007] body  `two words`
+    , } , @calculatedFrom(
+""// no comment"" ) Foo T
+    , // " ++ [128512]%N ++ runes_of_ascii " emoji
+}
+")).
+Eval vm_compute in ("<<<M1603>>>" ++ check (runes_of_ascii "packet A {
     Inner {
-    u8 a
+        match k as n {
+            [
+                1, 22, 007, 4, 5,
+                66, 7, 8, 9, 10,
+                11
+            ] : B,
+        },
+    },
+}")).
+Eval vm_compute in ("<<<M336>>>" ++ check (runes_of_ascii "
+packet msg_type
+{
+    zchar[ 65535
+    /// triple
+    ]stringy // `tick` ""quote"" 'q'
+@calculatedFrom( """ ++ [233]%N ++ runes_of_ascii "t" ++ [233]%N ++ runes_of_ascii """ )
+,@tag( 0
+) repeat i64_,
+}
+// packet A { u8 x, }
+")).
+Eval vm_compute in ("<<<M537>>>" ++ check (runes_of_ascii "packet uint8x
+{ match pack
+    as msg_type	{
+    0123456789 :	float
+}
+,
+} packet //	t
+a1
+    { } o'\x01'ptions {packetx
+    = '\x00'	; u128= ""a	b""  ; }
+")).
+Eval vm_compute in ("<<<M436>>>" ++ check (runes_of_ascii "packet uint8x
+{ match pack
+    as msg_type	{
+    0123456789 : :	float
+}
+,
+} packet //	t
+a1
+    { } options {packetx
+    = '\x00'	; u128= ""a	b""  ; }
+")).
+Eval vm_compute in ("<<<M1553>>>" ++ check (runes_of_ascii "packet Logon {
+    metadata @calculatedFrom(""a\\""),
+    @tag(42)
+    // " ++ [128512]%N ++ runes_of_ascii " emoji
+    @tag(65535)
+    repeat u16 o `line1
+    line2`,
+}
+
+packet float {
+}")).
+Eval vm_compute in ("<<<M522>>>" ++ check (runes_of_ascii "packet uint8x
+{ match pack
+    as msg_type	{
+    0123456789 :	float
+}
+,
+} packet //	t
+a1
+    { } options {packetx
+    = '\x00'	; u128= ;  ""a	b"" }
+")).
+Eval vm_compute in ("<<<M700>>>" ++ check (runes_of_ascii "// @lengthOf(
+packet i8i8 { u128 o , }
+options { MetaDataX = true true;
+    BodyLength =""packet"" x_y_z= 007
+crc //x
+= ""abc"" ;
+    msg_type =
+i16 }")).
+Eval vm_compute in ("<<<M695>>>" ++ check (runes_of_ascii "// @lengthOf(
+packet i8i8 { u128 o , }
+options { MetaDataX = true;
+    BodyLe@xngth =""packet"" x_y_z= 007
+crc //x
+= ""abc"" ;
+    msg_type =
+i16 }")).
+Eval vm_compute in ("<<<M715>>>" ++ check (runes_of_ascii "// @lengthOf(
+packet i8i8 { u128 o , options
+} { MetaDataX = true;
+    BodyLength =""packet"" x_y_z= 007
+crc //x
+= ""abc"" ;
+    msg_type =
+i16 }")).
+Eval vm_compute in ("<<<M1907>>>" ++ check (runes_of_ascii "packet A {
+    match k as n {
+        [
+            ""a"", ""bb"", ""c c"", ""d"", ""e"",
+            ""f"", ""g""
+        ] : B,
+        2 : C,
+    },
+}")).
+Eval vm_compute in ("<<<M1506>>>" ++ check (runes_of_ascii "
+packet
+	A
+
+{
+
+    match k
+    as n {  [
+    1 , 22
+	, ""c c"" ,
+
+4
+    , 5 
+,
+	""f""
+,
+7
+
+    ,  8
+	,
+    ""i"" ] :
+	B 2 :
+	C
+
+} 
+,
+
+}")).
+Eval vm_compute in ("<<<M937>>>" ++ check (runes_of_ascii "packet A {
+    u16 len @lengthOf(body) `a
+    b
+  c`,
+    u32 crc @calculatedFrom(""CRC32"") `a
+    b
+  c`,
+    string body,
+}")).
+Eval vm_compute in ("<<<M1141>>>" ++ check (runes_of_ascii "// c
+MetaData leftPad { chars MetaDataX , } packet repeatCount { char[ 255 ] uint8x `" ++ [233]%N ++ runes_of_ascii "` , } MetaData pack { As Foo , }")).
+Eval vm_compute in ("<<<M1174>>>" ++ check (runes_of_ascii "MetaData leftPad { chars MetaDataX , } packet repeatCount { char[ 255 ] uint8x `" ++ [233]%N ++ runes_of_ascii "` ,
+// c
+} MetaData pack { As Foo , }")).
+Eval vm_compute in ("<<<M1457>>>" ++ check (runes_of_ascii "packet A 
+{ 
+match
+k
+    as	n
+    {
+
+[
+
+1	,
+
+""bb""
+
+    ,
+	007
 
 ,
-} root
-	packet P
+""d""
 
-    {  repeat
-    Inner items,	u8 
-x	, } ")).
-Eval vm_compute in ("<<<M560>>>" ++ check (runes_of_ascii "
-packet
-    false {match u128 as lengthOf
-{
-//	t
-// `tick` ""quote"" 'q'
-255 : x ,
-    } ,	}")).
-Eval vm_compute in ("<<<M69>>>" ++ check (runes_of_ascii "//
-packet metadata
-{ }	MetaData chars
-//x
-//	t
-{
-    char[ 42	] leftPad `crlf
-line`  ,
-}")).
-Eval vm_compute in ("<<<M879>>>" ++ check (runes_of_ascii "packet A {
+    , 
+5 ]
+    :
+    B , 2 : C
+	}  ,	}
+
+")).
+Eval vm_compute in ("<<<M880>>>" ++ check (runes_of_ascii "packet A {
   match k as n {
-    [1, 22, 007, 4, 5, 66, 7, 8, 9, 10] : B
+    [""a"", ""bb"", ""c c"", ""d"", ""e"", ""f"", ""g"", ""h"", ""i"", ""j""] : B,
     2 : C
   },
 }")).
-Eval vm_compute in ("<<<M556>>>" ++ check (runes_of_ascii "
-,
+Eval vm_compute in ("<<<M867>>>" ++ check (runes_of_ascii "packet A {
+  match k as n {
+    [""a"", ""bb"", ""c c"", ""d"", ""e"", ""f"", ""g"", ""h"", ""i""] : B,
+    2 : C
+  },
+}")).
+Eval vm_compute in ("<<<M656>>>" ++ check (runes_of_ascii "// @lengthOf(
+packet i8i8 { u128 o , }
+options { MetaDataX = true;
+    BodyLength =""packet"" x_y_z")).
+Eval vm_compute in ("<<<M886>>>" ++ check (runes_of_ascii "packet A {
+  match k as n {
+    [1, 22, ""c c"", 4, 5, ""f"", 7, 8, ""i"", 10] : B,
+    2 : C
+  },
+}")).
+Eval vm_compute in ("<<<M618>>>" ++ check (runes_of_ascii "
+packet
     asx {match u128 as lengthOf
 {
 //	t
 // `tick` ""quote"" 'q'
 255 : x ,
+    } , ,	}")).
+Eval vm_compute in ("<<<M589>>>" ++ check (runes_of_ascii "
+packet
+    asx {match u128 as lengthOf
+255
+//	t
+// `tick` ""quote"" 'q'
+{ : x ,
     } ,	}")).
-Eval vm_compute in ("<<<M1305>>>" ++ check (runes_of_ascii "packet orderItem {
-    u8 a,
+Eval vm_compute in ("<<<M936>>>" ++ check (runes_of_ascii "packet A {
+    B b `a
+    b
+  c`,
+    B `a
+    b
+  c`,
+    repeat B bs `a
+    b
+  c`,
+}")).
+Eval vm_compute in ("<<<M1597>>>" ++ check (runes_of_ascii "packet A {
+    B b `x
+        `,
+    B `x
+        `,
+    repeat B bs `x
+        `,
+}")).
+Eval vm_compute in ("<<<M1273>>>" ++ check (runes_of_ascii "options {
+    FixedStringPadFromLeft = true;
 }
-root packet newOrder {
-    orderItem,
-    u8 x,
+root packet P {
+    char[4] z,
 }
 ")).
-Eval vm_compute in ("<<<M817>>>" ++ check (runes_of_ascii "packet A {
+Eval vm_compute in ("<<<M166>>>" ++ check (runes_of_ascii "packet calculatedFrom {repeat // packet A { u8 x, }
+string Foo`{ , }`	, }
+")).
+Eval vm_compute in ("<<<M1653>>>" ++ check (runes_of_ascii "  root packet	P{  u16 
+a
+,  u32
+    Sum @calculatedFrom(
+	""CRC32"") 
+,} ")).
+Eval vm_compute in ("<<<M792>>>" ++ check (runes_of_ascii "packet A {
   match k as n {
-    [1, ""bb"", 007, ""d"", 5] : B,
+    [1, ""bb"", 007] : B
     2 : C
   },
 }")).
-Eval vm_compute in ("<<<M807>>>" ++ check (runes_of_ascii "packet A {
+Eval vm_compute in ("<<<M783>>>" ++ check (runes_of_ascii "packet A {
   match k as n {
-    [""a"", 22, ""c c"", 4] : B
+    [1, ""bb""] : B
     2 : C
   },
 }")).
-Eval vm_compute in ("<<<M1087>>>" ++ check (runes_of_ascii "packet A { match k as n { [ // a
- 1 // b
- , // c
- 2 ] // d
- : B }, }")).
-Eval vm_compute in ("<<<M782>>>" ++ check (runes_of_ascii "packet A {
-  match k as n {
-    [1, ""bb""] : B,
-    2 : C
-  },
-}")).
-Eval vm_compute in ("<<<M1493>>>" ++ check (runes_of_ascii "MetaData M {
+Eval vm_compute in ("<<<M1089>>>" ++ check (runes_of_ascii "packet A { // a
+ @tag(1) u8 x, // b
+ // c
+ @tag(2) u8 y, }")).
+Eval vm_compute in ("<<<M1093>>>" ++ check (runes_of_ascii "packet A { repeat // a
+ B // b
+ b // c
+ `d` // e
+ , }")).
+Eval vm_compute in ("<<<M1888>>>" ++ check (runes_of_ascii "MetaData M {
     u8 x `x
-        `,
+    `,
     T t `x
-        `,
+    `,
 }")).
-Eval vm_compute in ("<<<M1684>>>" ++ check (runes_of_ascii "packet body {
-    i32 f32a `{ , }`,// c
-}
+Eval vm_compute in ("<<<M756>>>" ++ check (runes_of_ascii "zchar ( : f64 ) , repeat f32 u16 float64 , ; :")).
+Eval vm_compute in ("<<<M1411>>>" ++ check (runes_of_ascii "
+root
+	packet
 
-options {
-}")).
-Eval vm_compute in ("<<<M1215>>>" ++ check (runes_of_ascii "packet body { i32 f32a `{ , }` , } options // c
-{ }")).
-Eval vm_compute in ("<<<M1580>>>" ++ check (runes_of_ascii "packet  MetaDataX	{i16 
-u128 
-`" ++ [233]%N ++ runes_of_ascii "`
-, 	 //x
-	}
-
-")).
-Eval vm_compute in ("<<<M1223>>>" ++ check (runes_of_ascii "// top
-packet // c0
-x { // c2
-}
-    // c3
+A
+	{
+    u8
+	x
+`x
+`
+,	}
 ")).
 Eval vm_compute in ("<<<M935>>>" ++ check (runes_of_ascii "packet A {
     u8 x `a
     b
   c`,
 }")).
-Eval vm_compute in ("<<<M1043>>>" ++ check (runes_of_ascii "packet A {
- u8 x `d 	`, // c 	
+Eval vm_compute in ("<<<M1063>>>" ++ check (runes_of_ascii "packet A {
+ u8 x `d x`, // c x
 }")).
-Eval vm_compute in ("<<<M1008>>>" ++ check (runes_of_ascii "packet A {
- u8 x `d" ++ [8202]%N ++ runes_of_ascii "`, // c" ++ [8202]%N ++ runes_of_ascii "
+Eval vm_compute in ("<<<M1023>>>" ++ check (runes_of_ascii "packet A {
+ u8 x `d" ++ [8239]%N ++ runes_of_ascii "`, // c" ++ [8239]%N ++ runes_of_ascii "
 }")).
-Eval vm_compute in ("<<<M1065>>>" ++ check (runes_of_ascii "packet A {
-}// a// b// c
-")).
-Eval vm_compute in ("<<<M1111>>>" ++ check (runes_of_ascii "MetaData tag { } // c
-")).
-Eval vm_compute in ("<<<M1129>>>" ++ check (runes_of_ascii "
+Eval vm_compute in ("<<<M953>>>" ++ check (runes_of_ascii "packet A {
+    u8 x `
+x`,
+}")).
+Eval vm_compute in ("<<<M1112>>>" ++ check (runes_of_ascii "MetaData tag { }
 // c
-MetaData u { }")).
-Eval vm_compute in ("<<<M977>>>" ++ check (runes_of_ascii "// c 
-packet A {
-}")).
-Eval vm_compute in ("<<<M1059>>>" ++ check (runes_of_ascii "packet A {
-}// c x")).
-Eval vm_compute in ("<<<M1229>>>" ++ check (runes_of_ascii "packet x
-// c
-{ }")).
-Eval vm_compute in ("<<<M376>>>" ++ check (runes_of_ascii "
-// " ++ [128512]%N ++ runes_of_ascii " emoji
 ")).
-Eval vm_compute in ("<<<M1020>>>" ++ check (runes_of_ascii "// c" ++ [8239]%N)).
+Eval vm_compute in ("<<<M1137>>>" ++ check (runes_of_ascii "MetaData u { }
+// c
+")).
+Eval vm_compute in ("<<<M991>>>" ++ check (runes_of_ascii "packet A {
+}
+// c" ++ [133]%N)).
+Eval vm_compute in ("<<<M1233>>>" ++ check (runes_of_ascii "packet x { }
+// c
+")).
+Eval vm_compute in ("<<<M1435>>>" ++ check (runes_of_ascii "MetaData i64_ {
+}")).
+Eval vm_compute in ("<<<M3>>>" ++ check (runes_of_ascii "options {}
+
+")).
+Eval vm_compute in ("<<<M1015>>>" ++ check (runes_of_ascii "// c" ++ [8233]%N)).
+Eval vm_compute in ("<<<M72>>>" ++ check (@nil rune)).
